@@ -14,7 +14,9 @@ def warmup(chk, sc):
 
 def race_build(chk, sc, engine):
     """pristine copy of the working tree (+ the inactive simrt package), harness built with -race"""
-    repo, _ = chk.prepare(sc, "pristine", instrument=False)
+    repo = os.path.join(sc.dir, "repo-pristine")
+    if not os.path.isdir(repo):
+        repo, _ = chk.prepare(sc, "pristine", instrument=False)
     h = os.path.join(sc.dir, "hr-" + engine)
     os.makedirs(h)
     import shutil
